@@ -5,10 +5,6 @@ From Alpaqa Require Import Params ParamTables.
 Import ListNotations.
 Local Open Scope string_scope.
 
-(* the two confirmed gaps of the tables in /repo (see DESIGN.md section 5); everything else must be registered *)
-Definition known_field_gaps : list (string * string) := [("StructuredLBFGSDirectionParams", "failure_policy")].
-Definition known_enum_gaps : list (string * string) := [("PANOCStopCrit", "Ipopt"); ("PANOCStopCrit", "LBFGSBpp")].
-
 Definition keys_of (s : string) : list string := map fst (lookup_list s table_entries).
 Definition enum_names_of (s : string) : list string := map fst (lookup_list s enum_table_entries).
 
@@ -48,50 +44,26 @@ Proof.
   - apply andb_true_iff in H. destruct H as [_ H]. auto.
 Qed.
 
-(* ---- fields ---- *)
-Lemma fields_gap_check : forallb (fun x => pair_in x known_field_gaps) (missing_in header_fields table_entries) = true.
+(* ---- fields: every field declared in a header has a key ---- *)
+Lemma fields_gap_check : missing_in header_fields table_entries = [].
 Proof. vm_compute. reflexivity. Qed.
 
-Theorem every_field_registered_except_known : forall s fs f,
-  In (s, fs) header_fields -> In f fs -> In f (keys_of s) \/ In (s, f) known_field_gaps.
+Theorem every_field_registered : forall s fs f,
+  In (s, fs) header_fields -> In f fs -> In f (keys_of s).
 Proof.
-  intros s fs f H1 H2. destruct (missing_in_complete _ table_entries _ _ _ H1 H2) as [H|H]; [now left|right].
-  pose proof fields_gap_check as G. rewrite forallb_forall in G. apply pair_in_In. now apply G.
+  intros s fs f H1 H2. destruct (missing_in_complete _ table_entries _ _ _ H1 H2) as [H|H]; [exact H|].
+  rewrite fields_gap_check in H. contradiction.
 Qed.
 
-Theorem every_field_registered_refuted :
-  ~ (forall s fs f, In (s, fs) header_fields -> In f fs -> In f (keys_of s)).
-Proof.
-  intro H.
-  assert (M : In ("StructuredLBFGSDirectionParams", "failure_policy") (missing_in header_fields table_entries))
-    by (apply pair_in_In; vm_compute; reflexivity).
-  pose proof (missing_in_sound _ _ _ _ M) as N. apply N.
-  unfold missing_in in M. apply in_flat_map in M. destruct M as ([s fs] & Hd & M). simpl in M.
-  apply in_map_iff in M. destruct M as (f & E & M). inversion E; subst. apply filter_In in M.
-  eapply H; [exact Hd|apply M].
-Qed.
-
-(* ---- enumerators ---- *)
-Lemma enums_gap_check : forallb (fun x => pair_in x known_enum_gaps) (missing_in enum_enumerators enum_table_entries) = true.
+(* ---- enumerators: every (non-deprecated) enumerator of an enum that has an ENUM_TABLE has a name in it ---- *)
+Lemma enums_gap_check : missing_in enum_enumerators enum_table_entries = [].
 Proof. vm_compute. reflexivity. Qed.
 
-Theorem every_enumerator_registered_except_known : forall en es e,
-  In (en, es) enum_enumerators -> In e es -> In e (enum_names_of en) \/ In (en, e) known_enum_gaps.
+Theorem every_enumerator_registered : forall en es e,
+  In (en, es) enum_enumerators -> In e es -> In e (enum_names_of en).
 Proof.
-  intros s fs f H1 H2. destruct (missing_in_complete _ enum_table_entries _ _ _ H1 H2) as [H|H]; [now left|right].
-  pose proof enums_gap_check as G. rewrite forallb_forall in G. apply pair_in_In. now apply G.
-Qed.
-
-Theorem every_enumerator_registered_refuted :
-  ~ (forall en es e, In (en, es) enum_enumerators -> In e es -> In e (enum_names_of en)).
-Proof.
-  intro H.
-  assert (M : In ("PANOCStopCrit", "Ipopt") (missing_in enum_enumerators enum_table_entries))
-    by (apply pair_in_In; vm_compute; reflexivity).
-  pose proof (missing_in_sound _ _ _ _ M) as N. apply N.
-  unfold missing_in in M. apply in_flat_map in M. destruct M as ([s fs] & Hd & M). simpl in M.
-  apply in_map_iff in M. destruct M as (f & E & M). inversion E; subst. apply filter_In in M.
-  eapply H; [exact Hd|apply M].
+  intros s fs f H1 H2. destruct (missing_in_complete _ enum_table_entries _ _ _ H1 H2) as [H|H]; [exact H|].
+  rewrite enums_gap_check in H. contradiction.
 Qed.
 
 (* ---- keys unique, bound to the member of the same name, member declared ---- *)
